@@ -57,7 +57,8 @@ def cases(ctx):
             shape = [rng.randint(1, 7), rng.randint(1, 7)]
             p = rng.choice([0.3, 0.5, 0.7])
             yield {"kind": kind, "shape": shape, "vals": [1 if rng.random() < p else 0 for _ in range(gen.size(shape))],
-                   "bc": rng.choice(["cross", "box", "none"]), "layout": lay, "dtype": rng.choice(["bool", "uint8", "int32", "float64"])}
+                   "bc": rng.choice(["cross", "box", "none", "arb", "arb", "arb"]), "layout": lay,
+                   "dtype": rng.choice(["bool", "uint8", "int32", "float64"])}
         elif kind == "hitmiss":
             shape = [rng.randint(1, 7), rng.randint(1, 7)]
             tsh = rng.choice([[3, 3], [3, 3], [1, 3], [3, 1], [1, 1], [3, 5], [5, 3], [2, 2], [2, 3], [4, 1]])
@@ -137,6 +138,15 @@ def run_case(ctx, case):
             return Result(False, True, {"why": "input modified"})
         if got.shape != a0.shape:
             return Result(False, True, {"why": "shape"})
+        # a caller-supplied output that held something else before: positions where the template does not fit must be written too
+        try:
+            buf = np.full(a0.shape, 1, dtype=got.dtype)
+            got2 = mh.hitmiss(np.ascontiguousarray(a), t, out=buf)
+            if got2 is not buf or not np.array_equal(buf, got):
+                return Result(False, True, {"why": "hitmiss: the result in a supplied out buffer depends on what the buffer held before",
+                                            "without_out": [int(v) for v in got.reshape(-1)], "with_out": [int(v) for v in buf.reshape(-1)]})
+        except (ValueError, TypeError):
+            pass
         gl = [int(v) for v in got.reshape(-1)]
         model, spec = ctx.model.ints("hitmiss %s %s" % (enc_arr(fi), enc_arr(t0)))
         odd = all(s % 2 == 1 for s in case["tshape"])
@@ -146,6 +156,14 @@ def run_case(ctx, case):
             return Result(False, True, {"why": "hitmiss != model", "model": model, "got": gl})
         return Result(True, len(set(case["vals"])) > 1, None, "hitmiss/%s/%s" % ("x".join(map(str, case["tshape"])), case["dtype"]))
     bcs = case["bc"]
+    if bcs == "arb":
+        # elements lacking some axis neighbours (left/right only, one-sided, diagonal only ...): the flood then cannot pass
+        # everywhere, and "the image border" must remain the border of the image, not of the objects' bounding box
+        import random as _r
+        r2 = _r.Random(hash(tuple(case["vals"])) & 0xffffff)
+        pat = r2.choice([[0, 0, 0, 1, 1, 1, 0, 0, 0], [0, 1, 0, 0, 1, 0, 0, 1, 0], [0, 0, 0, 0, 1, 1, 0, 0, 0], [0, 0, 0, 0, 1, 0, 0, 1, 0],
+                         [1, 0, 1, 0, 1, 0, 1, 0, 1], [0, 0, 0, 1, 0, 1, 0, 0, 0]] + [[r2.randint(0, 1) for _ in range(9)] for _ in range(3)])
+        bcs = {"shape": [3, 3], "vals": pat}
     if bcs in ("cross", "none"):
         bc0 = cross(nd)
     elif bcs == "box":
@@ -163,11 +181,32 @@ def run_case(ctx, case):
         gl = [int(v) for v in got.reshape(-1)]
         ref = (fi != 0).astype(np.int64)
         model, spec = ctx.model.ints("close_holes %s %s" % (enc_arr(ref), enc_arr(bc0)))
-        if gl != spec:
+        # definition, evaluated independently: background reachable from a border background pixel by steps p -> p + offset of the
+        # element (DIRECTED: for an element that is not symmetric this is what "through the neighbourhood" means in the code and
+        # in the theorem close_holes_correct; the executable quick-find specification is its symmetric special case)
+        H, W = ref.shape
+        offs = [(y - bc0.shape[0] // 2, x - bc0.shape[1] // 2) for y in range(bc0.shape[0]) for x in range(bc0.shape[1])
+                if bc0[y, x] and (y - bc0.shape[0] // 2, x - bc0.shape[1] // 2) != (0, 0)]
+        seen = [[False] * W for _ in range(H)]
+        st = [(y, x) for y in range(H) for x in range(W) if (y in (0, H - 1) or x in (0, W - 1)) and ref[y, x] == 0]
+        for y, x in st:
+            seen[y][x] = True
+        while st:
+            y, x = st.pop()
+            for dy, dx in offs:
+                ny, nx = y + dy, x + dx
+                if 0 <= ny < H and 0 <= nx < W and ref[ny, nx] == 0 and not seen[ny][nx]:
+                    seen[ny][nx] = True
+                    st.append((ny, nx))
+        defn = [0 if seen[y][x] else 1 for y in range(H) for x in range(W)]
+        if gl != defn:
+            return Result(False, True, {"why": "close_holes != complement of the background reachable from the border", "definition": defn, "got": gl})
+        sym = bool(np.array_equal(bc0, bc0[::-1, ::-1]))
+        if sym and gl != spec:
             return Result(False, True, {"why": "close_holes != complement of the border-connected background", "spec": spec, "got": gl})
         if gl != model:
             return Result(False, True, {"why": "close_holes != model", "model": model, "got": gl})
-        return Result(True, len(set(case["vals"])) > 1, None, "close_holes/%s" % bcs)
+        return Result(True, len(set(case["vals"])) > 1, None, "close_holes/%s" % (bcs if isinstance(bcs, str) else "arbitrary"))
     is_min = kind.endswith("min")
     fn = getattr(mh, kind)
     bc_keep = None if bc_arg is None else bc_arg.copy()
